@@ -86,7 +86,7 @@ func runC01(c *Ctx) {
 	w := GetATWorld()
 	defer runC01Multi(c, w)
 	rng := NewRng(c.Seed)
-	n := c.Budget(300, 10000)
+	n := c.Budget(300, 30000)
 	// branches whose images span the IN-list batch size of the image and undo queries (1000 keys)
 	bigs := []int{1000, 1001}
 	if c.Tier == "thorough" {
@@ -155,7 +155,7 @@ func runC01(c *Ctx) {
 // these cases are decided by the restore oracle alone.
 func runC01Multi(c *Ctx, w *ATWorld) {
 	rng := NewRng(c.Seed + 77)
-	n := c.Budget(40, 1500)
+	n := c.Budget(40, 4000)
 	for i := 0; i < n; i++ {
 		r := rng.Fork()
 		cid := fmt.Sprintf("c01-m%d", i)
